@@ -76,6 +76,16 @@ CLAIMED = {
         "level": "Decides: the scan keeps table order (no set/sorted/reversed; order-preserving de-dup - defect in the blocking facade repaired), both scans identical after normalisation, each device list builds the class its filter names with the matched demand, DEVICES[d][2] exists for all wirings of all 895 combinations, all automation keys pairwise distinct, unique_id = parent-key, get_device/devices agree on one list.",
         "note": "The stage rules read comprehensions only; a rewrite as explicit loops is reported as ANALYSIS-ERROR (unsupported idiom), not as a violation. NOT decided: exactness of prefix matching for label sets never shipped.",
     },
+    "C13": {
+        "technique": "CFG guard/exclusivity rules on the four switch methods; normalised-AST sibling comparison (await/async_ forms identified) of every sync/async command pair; argument-provenance rules for the SPACK builders",
+        "level": "Decides: on/off commands are suppressed exactly by the already-on/off test, exactly one of {keypad press, direct write} is emitted per remaining path with the device's own keypad code / accessor and the right constant; blocking and awaitable command methods are identical modulo await; pump/heater/unit commands write the intended item; SPACK commands carry the connected pack's type and versions, the accessor's pos/length/value unchanged and a command-range sequence; watercare set sends once then updates locally.",
+        "note": "NOT decided: the closed loop with a responding spa (the write applied, echoed, and read back by the client) - that is the composition of C02, C04 and C05, each decided separately.",
+    },
+    "C14": {
+        "technique": "abstract interpretation in an exact affine domain (a*x+b over Fraction) of the temperature reader and both writers with a symbolic value; interpretation of unit/limit members per unit value; truth-table enumeration of the operation ladder",
+        "level": "Decides for a SYMBOLIC raw word / temperature: reader = raw/18 (C) and (raw+320)/10 (F), each writer is the exact rational inverse of the reader with positive slope and int truncation, sync = async; symbol and limits follow the unit and denote the same temperatures; current_operation equals the stated decision on all 27 flag/ordering combinations.",
+        "note": "NOT decided: IEEE-754 exactness of the read-back for all 65 536 words and the 'within one device step' bound for non-representable values (numerical properties of float arithmetic; outside static reach here).",
+    },
 }
 
 NOT_APPLICABLE = {f"C{n:02d}": PENDING for n in range(1, 21) if f"C{n:02d}" not in CLAIMED}
